@@ -694,6 +694,23 @@ pub fn check_case(door: Door, b: &[u8], case: &mut Case) {
                     true,
                 );
             }
+            // the header-skipping helpers: io::Read + Seek door against the slice door
+            {
+                case.at("Ipv6Header::skip_header_extension");
+                let s = Ipv6Header::skip_header_extension_in_slice(b, IpNumber(n));
+                let mut c = Cursor::new(b);
+                let r = Ipv6Header::skip_header_extension(&mut c, IpNumber(n));
+                let pos = c.position();
+                let eq = matches!((&s, &r), (Ok((n1, _)), Ok(n2)) if n1 == n2);
+                cmp_read("Ipv6Header::skip_header_extension", case, s.as_ref().map(|(_, rest)| b.len() - rest.len()).map_err(|e| conv::len_err(e)), r.as_ref().map(|_| pos).map_err(io), eq, true);
+                case.at("Ipv6Header::skip_all_header_extensions");
+                let s = Ipv6Header::skip_all_header_extensions_in_slice(b, IpNumber(n));
+                let mut c = Cursor::new(b);
+                let r = Ipv6Header::skip_all_header_extensions(&mut c, IpNumber(n));
+                let pos = c.position();
+                let eq = matches!((&s, &r), (Ok((n1, _)), Ok(n2)) if n1 == n2);
+                cmp_read("Ipv6Header::skip_all_header_extensions", case, s.as_ref().map(|(_, rest)| b.len() - rest.len()).map_err(|e| conv::len_err(e)), r.as_ref().map(|_| pos).map_err(io), eq, true);
+            }
             case.at("Ipv6Extensions::read");
             let s = Ipv6Extensions::from_slice(IpNumber(n), b);
             let mut c = Cursor::new(b);
